@@ -343,6 +343,8 @@ def _execute(env, root_t, mine, other, op):
             node[op["i1"]] = cv(op["arg"])
         elif name == "setslice":
             node[sl(op["i1"]):sl(op["i2"])] = [cv(x) for x in op["args"]]
+        elif name == "setslice1":
+            node[sl(op["i1"]):sl(op["i2"]):1] = [cv(x) for x in op["args"]]
         elif name == "setstep":
             node[sl(op["i1"]):sl(op["i2"]):op["i3"]] = [cv(x) for x in op["args"]]
         elif name == "delitem":
